@@ -2,6 +2,7 @@ import RedisVerif.Model.GrammarTable
 import RedisVerif.Model.LuaConv
 import RedisVerif.Lemmas.Grammar
 import RedisVerif.Lemmas.GrammarOpts
+import RedisVerif.Lemmas.GrammarLua
 
 /-!
 # C16 — a command means the same via every entry path (both parsers, Lua redis.call)
@@ -713,6 +714,165 @@ theorem conflicts_as_redis_counterexample : ¬ C16_conflicts_as_redis := by
   have := set_ex_px_not_rejected
   rw [he] at this
   simp [Except.isOk, Except.toBool] at this
+
+
+/-! ## 8. where the translator accepts, it builds the command the RESP grammar builds -/
+
+def luaCustoms : List Bytes :=
+  [s2b "SET", s2b "EXPIRE", s2b "LMOVE", s2b "ZADD", s2b "ZRANGE", s2b "ZRANGEBYSCORE"]
+
+/-- table-level test of a translator entry against the RESP grammar's entry of the same name -/
+def luaCheck : Entry → Bool
+  | .cmd l =>
+    luaCustoms.contains l.name ||
+    match findEntry table l.name with
+    | some (.cmd m) => aritySub l.arity m.arity && bodyOkSub l.body m.body
+    | _ => false
+  | .family _ _ _ _ => false
+
+theorem luaTable_checked : luaTable.all luaCheck = true := by decide +kernel
+
+theorem findEntry_name {tbl : List Entry} {k : Bytes} {e : Entry} (h : findEntry tbl k = some e) : e.name = k := by
+  induction tbl with
+  | nil => simp [findEntry] at h
+  | cons x xs ih =>
+    simp only [findEntry] at h
+    split at h
+    · rename_i hx; simp at h; rw [← h]; exact hx
+    · exact ih h
+
+theorem run_ok {s : Spec} {args : List Bytes} {c : Cmd} (h : s.run args = .ok c) :
+    s.arity.ok args.length = true ∧ s.body.run args = .ok c := by
+  unfold Spec.run at h
+  cases ha : s.arity.ok args.length with
+  | false => rw [ha] at h; simp at h
+  | true =>
+    rw [ha] at h
+    simp only [if_true] at h
+    cases hb : s.body.run args with
+    | error e => rw [hb] at h; simp at h
+    | ok c' => rw [hb] at h; simp only [Except.ok.injEq] at h; subst h; exact ⟨rfl, rfl⟩
+
+theorem run_of {s : Spec} {args : List Bytes} (ha : s.arity.ok args.length = true) :
+    s.run args = liftB (s.body.run args) := by
+  unfold Spec.run
+  rw [ha]
+  simp only [if_true, liftB]
+  cases s.body.run args <;> rfl
+
+def luaSetSpec : Spec := customSpec "SET" (.atLeast 2) (reqAtLeast "SET" 2) CB.luaSet
+def luaExpireSpec : Spec := customSpec "EXPIRE" (.exact 2) (req "EXPIRE" 2) (CB.plain Bodies.luaExpire)
+def lmoveSpec : Spec := customSpec "LMOVE" (.exact 4) (req "LMOVE" 4) CB.lmove
+def luaZaddSpec : Spec := customSpec "ZADD" (.atLeast 3) (s2b "ZADD requires key and score-member pairs")
+  (CB.zadd { kind := .flt, onErr := some .luaZaddScore })
+def zaddSpec : Spec := customSpec "ZADD" (.atLeast 3) (s2b "ZADD requires key and score-member pairs") (CB.zadd aFlt)
+def luaZrangeSpec : Spec := customSpec "ZRANGE" (.exact 3) (req "ZRANGE" 3) (CB.plain Bodies.luaZrange)
+def zrangeSpec : Spec := customSpec "ZRANGE" (.between 3 4) (s2b "ZRANGE requires 3 or 4 arguments") (CB.zrange (s2b "ZRange"))
+
+theorem find_lua_set : findEntry luaTable (s2b "SET") = some (.cmd luaSetSpec) := by rfl
+theorem find_lua_expire : findEntry luaTable (s2b "EXPIRE") = some (.cmd luaExpireSpec) := by rfl
+theorem find_lua_lmove : findEntry luaTable (s2b "LMOVE") = some (.cmd lmoveSpec) := by rfl
+theorem find_lmove : findEntry table (s2b "LMOVE") = some (.cmd lmoveSpec) := by rfl
+theorem find_lua_zadd : findEntry luaTable (s2b "ZADD") = some (.cmd luaZaddSpec) := by rfl
+theorem find_zadd : findEntry table (s2b "ZADD") = some (.cmd zaddSpec) := by rfl
+theorem find_lua_zrange : findEntry luaTable (s2b "ZRANGE") = some (.cmd luaZrangeSpec) := by rfl
+theorem find_zrange : findEntry table (s2b "ZRANGE") = some (.cmd zrangeSpec) := by rfl
+
+/-- proved form of "redis.call parses like the RESP parser": whenever the translator accepts a
+    frame (other than ZRANGEBYSCORE, whose LIMIT count it parses differently), the RESP grammar
+    accepts it with the SAME command — except SET with both NX and XX, which only the RESP
+    grammar refuses -/
+theorem lua_agrees_partial (name : Bytes) (args : List Bytes) (c : Cmd)
+    (hx : kw name ≠ s2b "ZRANGEBYSCORE") (h : parseLua (name :: args) = .ok c) :
+    parseCmd (name :: args) = .ok c ∨
+    (kw name = s2b "SET" ∧ parseCmd (name :: args) = .error (.body (.lit .nxxx))) := by
+  simp only [parseLua] at h
+  cases he : findEntry luaTable (kw name) with
+  | none => rw [he] at h; simp at h
+  | some e =>
+    rw [he] at h
+    simp only [parseWith, he] at h
+    have hchk := (List.all_eq_true.mp luaTable_checked) e (findEntry_mem he)
+    have hname := findEntry_name he
+    cases e with
+    | family a b c d => simp [luaCheck] at hchk
+    | cmd l =>
+      simp only at h
+      simp only [Entry.name] at hname
+      obtain ⟨har, hbody⟩ := run_ok h
+      by_cases h1 : kw name = s2b "SET"
+      · rw [h1, find_lua_set] at he
+        simp only [Option.some.injEq, Entry.cmd.injEq] at he
+        subst he
+        have hb : Bodies.luaSet args = .ok c := hbody
+        rw [parse_of_find (s := setSpec) (by rw [h1]; exact find_set), run_of (s := setSpec) har]
+        rcases luaSet_ok args c hb with h' | h'
+        · left; show liftB (Bodies.set args) = _; rw [h']; rfl
+        · right; refine ⟨h1, ?_⟩; show liftB (Bodies.set args) = _; rw [h']; rfl
+      · left
+        by_cases h2 : kw name = s2b "EXPIRE"
+        · rw [h2, find_lua_expire] at he
+          simp only [Option.some.injEq, Entry.cmd.injEq] at he
+          subst he
+          have hl : args.length = 2 := by simpa [luaExpireSpec, customSpec, Arity.ok] using har
+          have hb : Bodies.luaExpire args = .ok c := hbody
+          rw [parse_of_find (s := expireSpec) (by rw [h2]; exact find_expire),
+            run_of (s := expireSpec) (by simp [expireSpec, customSpec, Arity.ok, hl])]
+          show liftB (Bodies.expire (s2b "Expire") args) = _
+          rw [luaExpire_ok args c hl hb]; rfl
+        · by_cases h3 : kw name = s2b "LMOVE"
+          · rw [h3, find_lua_lmove] at he
+            simp only [Option.some.injEq, Entry.cmd.injEq] at he
+            subst he
+            rw [parse_of_find (s := lmoveSpec) (by rw [h3]; exact find_lmove)]
+            exact h
+          · by_cases h4 : kw name = s2b "ZADD"
+            · rw [h4, find_lua_zadd] at he
+              simp only [Option.some.injEq, Entry.cmd.injEq] at he
+              subst he
+              have hb : Bodies.zadd { kind := .flt, onErr := some .luaZaddScore } args = .ok c := hbody
+              rw [parse_of_find (s := zaddSpec) (by rw [h4]; exact find_zadd), run_of (s := zaddSpec) har]
+              show liftB (Bodies.zadd aFlt args) = _
+              rw [zadd_ok (a := { kind := .flt, onErr := some .luaZaddScore }) (b := aFlt) rfl args c hb]; rfl
+            · by_cases h5 : kw name = s2b "ZRANGE"
+              · rw [h5, find_lua_zrange] at he
+                simp only [Option.some.injEq, Entry.cmd.injEq] at he
+                subst he
+                have hl : args.length = 3 := by simpa [luaZrangeSpec, customSpec, Arity.ok] using har
+                have hb : Bodies.luaZrange args = .ok c := hbody
+                rw [parse_of_find (s := zrangeSpec) (by rw [h5]; exact find_zrange),
+                  run_of (s := zrangeSpec) (by simp [zrangeSpec, customSpec, Arity.ok, hl])]
+                show liftB (Bodies.zrange (s2b "ZRange") args) = _
+                rw [luaZrange_ok args c hl hb]; rfl
+              · -- a DSL entry: the table-level test applies
+                have hnc : luaCustoms.contains l.name = false := by
+                  rw [hname]
+                  simp only [luaCustoms, List.contains_cons, List.contains_nil, Bool.or_false, Bool.or_eq_false_iff,
+                    beq_eq_false_iff_ne, ne_eq]
+                  exact ⟨h1, h2, h3, h4, h5, hx⟩
+                simp only [luaCheck, hnc, Bool.false_or] at hchk
+                rw [hname] at hchk
+                cases hm : findEntry table (kw name) with
+                | none => rw [hm] at hchk; simp at hchk
+                | some e' =>
+                  rw [hm] at hchk
+                  cases e' with
+                  | family a b c d => simp at hchk
+                  | cmd m =>
+                    simp only [Bool.and_eq_true] at hchk
+                    rw [parse_of_find hm, run_of (arity_sub hchk.1 _ har), body_ok_sub hchk.2 args c hbody]
+                    rfl
+
+/-- non-vacuity: accepted by the translator, same command -/
+example : parseLua [s2b "hset", s2b "h", s2b "f", s2b "1"] = parseCmd [s2b "hset", s2b "h", s2b "f", s2b "1"] ∧
+    (parseLua [s2b "hset", s2b "h", s2b "f", s2b "1"]).isOk = true := by decide
+
+/-- the excluded command: a LIMIT count of 2^63 is a `usize` for the translator and not an
+    `isize` for the RESP grammar (known finding) -/
+theorem lua_zrangebyscore_limit_differs :
+    (parseLua [s2b "ZRANGEBYSCORE", s2b "z", s2b "0", s2b "1", s2b "LIMIT", s2b "0", s2b "9223372036854775808"]).isOk = true ∧
+    parseCmd [s2b "ZRANGEBYSCORE", s2b "z", s2b "0", s2b "1", s2b "LIMIT", s2b "0", s2b "9223372036854775808"] =
+      .error (.body (.lit .notInt)) := by decide
 
 end C16
 end RedisVerif
